@@ -262,17 +262,23 @@ class DotProduct(Expression):
             return [var_to_elem.get(v, Constant(0.0)) for v in variables]
 
         # Case 2: x.dot(y) -> gradient is y[i] w.r.t. x[i], x[i] w.r.t. y[i]
-        left_lookup = {left_vars[i]: right_vars[i] for i in range(len(left_vars))}
-        right_lookup = {right_vars[i]: left_vars[i] for i in range(len(right_vars))}
+        # A variable may occur on both sides (overlapping or reordered views of one
+        # vector); its partial derivative is the sum of all partner elements.
+        partners: dict[Variable, list[Expression]] = {}
+        for lv, rv in zip(left_vars, right_vars):
+            partners.setdefault(lv, []).append(rv)
+            partners.setdefault(rv, []).append(lv)
 
         result: list[Expression] = []
         for var in variables:
-            if var in left_lookup:
-                result.append(left_lookup[var])
-            elif var in right_lookup:
-                result.append(right_lookup[var])
-            else:
+            terms = partners.get(var)
+            if not terms:
                 result.append(Constant(0.0))
+                continue
+            acc = terms[0]
+            for t in terms[1:]:
+                acc = BinaryOp(acc, t, "+")
+            result.append(acc)
         return result
 
     def __repr__(self) -> str:
@@ -1334,7 +1340,12 @@ class VectorVariable:
         if isinstance(other, MatrixVectorProduct):
             # Check if the MatrixVectorProduct's vector is self
             if isinstance(other.vector, VectorVariable):
-                if other.vector is self or other.vector.name == self.name:
+                if other.vector is self or (
+                    other.vector.size == self.size
+                    and all(
+                        a is b for a, b in zip(other.vector._variables, self._variables)
+                    )
+                ):
                     # This is x.dot(A @ x) - return QuadraticForm for O(1) gradient
                     return QuadraticForm(self, other.matrix)
 
